@@ -10,6 +10,7 @@ import tys
 import solver
 
 I = T.I
+CURRENT_EV = None
 AX = {}
 TOTAL_NOTE = {}     # axiom key -> one-line statement of what is trusted (echoed in evidence)
 
@@ -39,8 +40,11 @@ def lookup(path, info):
 
 def oblige(st, info, kind, cond, detail=''):
     """record panic obligation `cond` (must hold) and assume it afterwards"""
-    st.obls.append({'kind': kind, 'site': info['site']['span'], 'fn': info['site']['fn'], 'cond': cond,
-                    'pc': list(st.pc), 'detail': detail})
+    ob = {'kind': kind, 'site': info['site']['span'], 'fn': info['site']['fn'], 'cond': cond,
+          'pc': list(st.pc), 'detail': detail, 'exp': info['site'].get('exp', False)}
+    st.obls.append(ob)
+    if CURRENT_EV is not None:
+        CURRENT_EV.all_obls.append(ob)
     if cond == T.FALSE:
         return False
     if cond != T.TRUE and cond not in st.pc:
@@ -190,8 +194,11 @@ def index_common(ev, st, info, seq, rng, is_str):
         for which, idx in (('start', lo), ('end', hi)):
             if idx == I(0) or idx == n:
                 continue
-            st.obls.append({'kind': 'char_boundary', 'site': info['site']['span'], 'fn': info['site']['fn'],
-                            'cond': ('call', 'is_char_boundary', (seq, idx)), 'pc': list(st.pc), 'detail': which})
+            ob = {'kind': 'char_boundary', 'site': info['site']['span'], 'fn': info['site']['fn'],
+                  'cond': ('call', 'is_char_boundary', (seq, idx)), 'pc': list(st.pc), 'detail': which, 'exp': False}
+            st.obls.append(ob)
+            if CURRENT_EV is not None:
+                CURRENT_EV.all_obls.append(ob)
     return ('range', lo, hi)
 
 
@@ -285,8 +292,11 @@ def a_split_at(ev, st, info, args):
     if not oblige(st, info, 'slice_end', T.cmp('Le', args[1], n), 'mid <= len'):
         return []
     if 'str' in info['c']['path']:
-        st.obls.append({'kind': 'char_boundary', 'site': info['site']['span'], 'fn': info['site']['fn'],
-                        'cond': ('call', 'is_char_boundary', (seq, args[1])), 'pc': list(st.pc), 'detail': 'mid'})
+        ob = {'kind': 'char_boundary', 'site': info['site']['span'], 'fn': info['site']['fn'],
+              'cond': ('call', 'is_char_boundary', (seq, args[1])), 'pc': list(st.pc), 'detail': 'mid', 'exp': False}
+        st.obls.append(ob)
+        if CURRENT_EV is not None:
+            CURRENT_EV.all_obls.append(ob)
     return [(st, ('tuple', (T.mk_slice(seq, I(0), args[1]), T.mk_slice(seq, args[1], n))))]
 
 
@@ -1123,7 +1133,7 @@ def a_arg_debug(ev, st, info, args):
     return [(st, T.mk_adt('$FmtArg', 'debug', [('0', args[0])]))]
 
 
-@ax("core::fmt::rt::Argument::<'_>::new_upper_hex", "core::fmt::rt::Argument::<'_>::new_lower_hex", note='{:X} placeholder argument')
+@ax("core::fmt::rt::Argument::<'_>::new_upper_hex", "core::fmt::rt::Argument::<'_>::new_lower_hex", 'core::fmt::rt::Argument::new_upper_hex', 'core::fmt::rt::Argument::new_lower_hex', note='{:X} placeholder argument')
 def a_arg_hex(ev, st, info, args):
     return [(st, T.mk_adt('$FmtArg', 'hex', [('0', args[0])]))]
 
